@@ -71,7 +71,7 @@ func ssaVttClaimed(src *astisub.Subtitles) string {
 		}
 		for _, l := range it.Lines {
 			v, t := l.VoiceName, l.String()
-			if v != strings.TrimSpace(v) || strings.ContainsAny(v, ">&<\r\n\x00") || !utf8.ValidString(v) {
+			if v != strings.TrimSpace(v) || strings.ContainsAny(v, "&<\r\n\x00") /* a '>' is fine since the fix of F2: written &gt; */ || !utf8.ValidString(v) {
 				return "speaker name not expressible as a voice annotation"
 			}
 			if t == "" {
